@@ -27,7 +27,7 @@ REAL = ["bec2format.bf3file / bec2file / crypto registry", "register_crypto_plug
         "when the fault arm is active)"]
 STUBS = ["medium: SimFS", "RNG: SimRng", "cipher fault wrapper FaultyAES / abstract base class for 'missing'",
          "RefAES, RefDir (independent models)"]
-PROBES = ["runs-with-assertions-disabled", "retry-after-cipher-failure", "marked-component-without-enc-tag", "plain-configuration-replaced-by-set_config", "sibling-package-made-plain", "concurrent-writers-same-key", "rewritten-under-second-key", "content-longer-than-4096", "content-multiple-of-16", "content-trailing-zero", "content-all-zero", "cipher-missing", "cipher-raised-at-k",
+PROBES = ["blocks-derived-from-configuration", "runs-with-assertions-disabled", "retry-after-cipher-failure", "marked-component-without-enc-tag", "plain-configuration-replaced-by-set_config", "sibling-package-made-plain", "concurrent-writers-same-key", "rewritten-under-second-key", "content-longer-than-4096", "content-multiple-of-16", "content-trailing-zero", "content-all-zero", "cipher-missing", "cipher-raised-at-k",
           "write-failed-no-file", "write-failed-file-exists", "rewrite-same-ciphertext", "bec2-framing", "config-component",
           "secrecy-needles-checked"]
 ASSUMPTIONS = ["encrypted content is defined up to its declared length; the reader returns the zero-padded plaintext"]
@@ -131,6 +131,9 @@ def _scan(needles, durable, binary):
             win = sec[i:i + 8]
             if win in binary or win in durable or win.hex().upper().encode() in durable:
                 return what
+            # other clear-text renderings inside the text: lower-case hex, Python's bytes repr, Base64
+            if win.hex().encode() in durable or repr(win)[2:-1].encode() in durable:
+                return what + " (rendered as text)"
     return None
 
 
@@ -347,6 +350,30 @@ def run(case):
             leak = _scan(needles, w.durable, binary)
             if leak:
                 out.fail("C06.secret-in-clear", leak.split(" ")[0], "%s appears in clear in the written file" % leak)
+        # ---- the same package prepared the way the appnotes do it: blocks derived from the configuration ----
+        cfgspec = case["obj"].get("config")
+        if kind == "bec2" and cfgspec and mode == "real":
+            cfg = G.config_dict(cfgspec)
+            code = cfg.get((0x0202, 0x82))
+            if code and len(code) >= 8:
+                out.probes["blocks-derived-from-configuration"] += 1
+                try:
+                    env.install_rng(w.rng)
+                    bec = env.bec2file.Bec2File(G.build_bf3(case["obj"], env))
+                    bec.derive_auth_blocks_from_config(cfg, cust_key_support=bool(len(code) % 2 or code[0] & 1))
+                    bec.write_file("derived.bec2", [x for x in getattr(w, "wenc", [])
+                                                    if isinstance(x, env.bec2file.CustKeyEncryptor)])
+                except SimCrash:
+                    raise
+                except Exception as e:
+                    out.ev("derived-write-raised", type(e).__name__)
+                else:
+                    d2 = fs.files["derived.bec2"]
+                    leak = _scan([("configuration security code", code), ("session key", bytes(bec.session_key))],
+                                 d2, files.binary_of(d2)[1])
+                    if leak:
+                        out.fail("C06.secret-in-clear", "derived-" + leak.split(" ")[0],
+                                 "%s appears in clear in a file whose blocks were derived from the configuration" % leak)
         if tagless:
             out.ev("ok-tagless", kind, mode)
             return out
